@@ -2,6 +2,7 @@ package stackh
 
 import (
 	"bytes"
+	"github.com/lightninglabs/lightning-node-connect/mailbox"
 	"strconv"
 	"strings"
 	"time"
@@ -401,7 +402,7 @@ func finalSessions(w *World, x *vrt.Exec) {
 			// first session that went on to complete its transfer)
 			var first *Session
 			for _, s := range side {
-				if s.HsDone && s.Pattern == "XX" {
+				if s.HsDone && s.Pattern == mailbox.XX {
 					first = s
 					break
 				}
@@ -413,8 +414,8 @@ func finalSessions(w *World, x *vrt.Exec) {
 				if s.Index <= first.Index || s.Conn == nil {
 					continue
 				}
-				if s.Pattern != "KK" {
-					w.fail("post-pairing/pattern/"+s.Side, "%s connection #%d after a version-2 pairing uses %s (expected KK)", s.Side, s.Index, s.Pattern)
+				if s.Pattern != mailbox.KK {
+					w.fail("post-pairing/pattern/"+s.Side, "%s connection #%d after a version-2 pairing uses the %s pattern (expected KK)", s.Side, s.Index, s.Pattern)
 					return
 				}
 				if s.SendSID == first.SendSID {
@@ -425,6 +426,10 @@ func finalSessions(w *World, x *vrt.Exec) {
 					w.reached["post-pairing-kk"] = true
 				}
 			}
+		}
+		if w.canonical && w.faults == 0 && w.sc.Rounds >= 2 && !w.reached["post-pairing-kk"] {
+			w.fail("vacuous/post-pairing-not-checked", "canonical fault-free run of %d sessions: no completed session after the pairing was looked at", w.sc.Rounds)
+			return
 		}
 		// both sides moved to the same place
 		var lastC, lastS *Session
